@@ -140,7 +140,10 @@ def clock_forms(h, mi, groups=None):
     out = []
     out.append(("clock:H:MM", "%d:%02d" % (h, mi), C))
     out.append(("clock:HH:MM", "%02d:%02d" % (h, mi), C))
-    out.append(("clock:H.MM", "%d.%02d" % (h, mi), C))
+    if mi > 12 or h == 0:
+        # guard DotTimeReadsAsDate: "7.05" is also the 7th of May (d.m); the notation H.MM is part of
+        # the grammar only where it cannot be a day.month
+        out.append(("clock:H.MM", "%d.%02d" % (h, mi), C))
     out.append(("clock:HhMM", "%dh%02d" % (h, mi), C))
     out.append(("clock:HuhrMM", "%duhr%02d" % (h, mi), C))
     out.append(("clock:H:MM uhr", "%d:%02d uhr" % (h, mi), C))
@@ -168,12 +171,16 @@ def clock_forms(h, mi, groups=None):
         if h >= 13:
             for ph in ("in the afternoon", "in the evening", "nachmittags", "abends", "at night", "nachts"):
                 out.append(("clock:h in the POD", "%d %s" % (h - 12, ph), C))
-            out.append(("clock:h uhr POD", "%d uhr abends" % (h - 12), C))
+            for f in ("%d uhr abends", "%d uhr nachmittags", "%d:00 in the afternoon", "at %d in the afternoon",
+                      "%d o'clock in the evening", "um %d uhr abends"):
+                out.append(("clock:h uhr POD", f % (h - 12), C))
         if h == 12:
             out.append(("clock:h in the POD", "12 in the afternoon", C))
         if 1 <= h <= 11:
             for ph in ("in the morning", "morgens", "vormittags", "am vormittag"):
                 out.append(("clock:h in the POD", "%d %s" % (h, ph), C))
+            for f in ("%d uhr morgens", "%d:00 in the morning", "at %d in the morning", "%d o'clock in the morning"):
+                out.append(("clock:h uhr POD", f % h, C))
     hn = (h + 1) % 24
 
     def hour_words(hh):
